@@ -816,7 +816,7 @@ class TrigTime:
             elif len(match1) == 3:
                 this_t, _ = await cls.parse_date_time(match1[1].strip(), 0, now, startup_time)
                 day_offset = (now - this_t).days + 1
-                if day_offset != 0 and this_t != startup_time:
+                if day_offset != 0:
                     #
                     # Try a day offset (won't make a difference if spec has full date)
                     #
